@@ -110,6 +110,33 @@ def receiver_root_type(fn, c, argi=0, depth=8):
     return fn.locals[l] if l is not None else None
 
 
+_RESV = {}
+
+
+def is_reservation(prog, f, c, depth=2):
+    """`c` (a call in body `f`) reserves space at the end of a blob file: `FileInner.size.fetch_add`, or a call of a small in-crate
+    non-async helper whose return value is such a reservation (`fn reserve(&self, len) -> u64 { self.size.fetch_add(len, ..) }`)"""
+    if c.name == 'fetch_add' and c.path.startswith('std::sync::atomic::Atomic'):
+        return receiver_field(f, c) == 'size'
+    if depth <= 0:
+        return False
+    tg = [t for t in prog.resolve(c) if t in prog.fns]
+    if not tg:
+        return False
+    for t in tg:
+        k = (t, depth)
+        if k not in _RESV:
+            _RESV[k] = False
+            g = prog.body_of(t)
+            if g is not None and not g.is_coroutine and g.file.startswith('src/io/'):
+                ogs = core.origins(g, 0)
+                _RESV[k] = bool(ogs) and any(o.kind == 'call' and is_reservation(prog, g, o.data, depth - 1) for o in ogs) and \
+                    all(o.kind in ('binop', 'const') or (o.kind == 'call' and is_reservation(prog, g, o.data, depth - 1)) for o in ogs)
+        if not _RESV[k]:
+            return False
+    return True
+
+
 class FileWrappers:
     """Classifies in-crate functions that reach a raw positional write:
     'append'  : every origin of every offset handed to the OS is FileInner.size.fetch_add (+ arithmetic on it)
@@ -131,7 +158,7 @@ class FileWrappers:
         kind = 'append'
         owner = None
         for og in ogs:
-            if og.kind == 'call' and og.data.name == 'fetch_add' and receiver_field(og.fn, og.data) == 'size':
+            if og.kind == 'call' and is_reservation(prog, og.fn, og.data):
                 continue
             if og.kind == 'binop':
                 continue
@@ -139,7 +166,7 @@ class FileWrappers:
                 # a parameter of a named function: positional from that function's point of view, unless that function
                 # is private plumbing all of whose callers pass fetch_add results
                 full = core.origins_ip(prog, og.fn, og.data, depth=3)
-                if all(o.kind == 'call' and o.data.name == 'fetch_add' and receiver_field(o.fn, o.data) == 'size' or o.kind == 'binop' for o in full) and full:
+                if all(o.kind == 'call' and is_reservation(prog, o.fn, o.data) or o.kind == 'binop' for o in full) and full:
                     continue
                 kind = 'positional'
                 owner = og.fn.id
